@@ -194,8 +194,8 @@ type runEnv struct {
 	Idx   int       // index of the run inside a group of overlapping runs
 	c     *caseSpec // script and input of this run (overlapping runs: one script per run)
 	rr    *runRec
-	sched *sched // nil: the run is not gated
-	early bool   // "value-steered" checker: return at the first tool-call chunk
+	sched *sched     // nil: the run is not gated
+	early bool       // "value-steered" checker: return at the first tool-call chunk
 	fut   *futEnv    // workload "future": producer registry, consumers of nested futures (future_test.go)
 	res   *resumeEnv // workload "resume": which calls ask for an interrupt (resume_test.go)
 }
